@@ -11,9 +11,15 @@ def dyadic(rng, lo=-8, hi=8, bits=3):
 
 def sorted_x(rng, m, kind=None):
     """strictly increasing abscissae; kinds: uniform, nonuniform dyadic, integer, wide-ratio"""
-    kind = kind or rng.choice(["uniform", "uniform", "dyadic", "dyadic", "int", "ratio", "uniform", "dyadic", "dyadic", "int", "ratio", "epoch"])
+    kind = kind or rng.choice(["uniform", "uniform", "dyadic", "dyadic", "int", "ratio", "uniform", "dyadic", "dyadic", "int", "ratio", "epoch", "nearly"])
     if kind == "epoch":
         return epoch_x(rng, m)
+    if kind == "nearly":
+        # almost uniform: interior points off the regular grid by 2^-20..2^-18 of the step (all values are still short dyadics, so the
+        # float arithmetic on them stays exact); tolerance-based "evenly spaced" tests (np.allclose) call this uniform
+        step = rng.choice([1.0, 0.5, 256.0])
+        x0 = dyadic(rng, -4, 4, 2)
+        return [x0 + i * step + (step * rng.choice([-4, -2, -1, 1, 2, 4]) * 2.0 ** -20 if 0 < i < m - 1 else 0.0) for i in range(m)]
     if kind == "uniform":
         x0 = dyadic(rng, -4, 4, 2)
         step = rng.choice([0.25, 0.5, 1.0, 2.0, 3.0])
